@@ -3,6 +3,7 @@ package c02
 
 import (
 	"encoding/json"
+	"fmt"
 	"sort"
 	"strings"
 	"testing"
@@ -19,6 +20,9 @@ type Case struct {
 	Gen   prog.Generated `json:"gen"`
 	Store string         `json:"store"`
 	Text  string         `json:"text"`
+	// Late: indices into Gen.Extra of facts that are withheld from the first evaluation, added to the store
+	// afterwards and followed by a second evaluation of the same program on the same store.
+	Late []int `json:"late,omitempty"`
 }
 
 type verdict struct {
@@ -54,7 +58,21 @@ func extraFacts(g prog.Generated) []prog.Fact {
 func check(run *stats.Run, f stats.Failer, c Case) verdict {
 	var v verdict
 	text := c.Gen.Prog.Source()
-	extra := extraFacts(c.Gen)
+	lateAtoms := lateFacts(c)
+	early := c.Gen
+	if len(lateAtoms) > 0 {
+		early.Extra = nil
+		isLate := map[int]bool{}
+		for _, i := range c.Late {
+			isLate[i] = true
+		}
+		for i, a := range c.Gen.Extra {
+			if !isLate[i] {
+				early.Extra = append(early.Extra, a)
+			}
+		}
+	}
+	extra := extraFacts(early)
 	ref := prog.Eval(c.Gen.Prog, extra, prog.Options{})
 	switch {
 	case ref.Capped, ref.Err != nil, ref.Unsafe != "", ref.Unstratifiable:
@@ -85,6 +103,9 @@ func check(run *stats.Run, f stats.Failer, c Case) verdict {
 			}
 			m[h] = true
 		}
+	}
+	if len(lateAtoms) > 0 && prog.HashKeyed(store) && stats.Exclusion("K08-hash-colliders") {
+		store = "multiindexedarray" // the collision test above does not cover the second model
 	}
 	out := prog.Run(text, extra, store)
 	switch {
@@ -127,6 +148,62 @@ func check(run *stats.Run, f stats.Failer, c Case) verdict {
 		run.Failf(f, "aggregation result differs from the fold of each rule's own body solutions.\nmissing: %v\nextra: %v\nprogram:\n%spre-loaded: %s",
 			missing, extraGot, text, atomsText(c.Gen.Extra))
 	}
+	if len(lateAtoms) > 0 {
+		// Second evaluation on the same store: everything the store holds now (incl. the aggregates of the
+		// first run) plus the late facts is the base; each aggregating rule has to reduce the solutions of its
+		// body over the new fixpoint. (Negation-free programs only, see lateFacts.)
+		var base2 []prog.Fact
+		for _, k := range ref.Model.Keys() {
+			base2 = append(base2, ref.Model[k])
+		}
+		lf := extraFacts(prog.Generated{Extra: lateAtoms})
+		base2 = append(base2, lf...)
+		ref2 := prog.Eval(c.Gen.Prog, base2, prog.Options{})
+		if ref2.Capped || ref2.Err != nil || ref2.Unsafe != "" || ref2.Unstratifiable {
+			run.Inconclusive()
+			v.labels = append(v.labels, "ref2-no-verdict")
+			return v
+		}
+		out2 := prog.RunAgain(&out, out.Store, lf, -1)
+		switch {
+		case out2.Panic != "":
+			run.Failf(f, "the second evaluation on the same store panicked: %s\n%s", out2.Panic, text)
+		case out2.EvalErr != nil:
+			run.Failf(f, "the second evaluation on the same store failed: %v\n%s", out2.EvalErr, text)
+		}
+		want2, got2 := map[string]bool{}, map[string]bool{}
+		for _, fact := range ref2.Model {
+			want2[normKey(fact.Pred, fact.Args)] = true
+		}
+		for _, a := range out2.Facts {
+			args := make([]ast.Constant, len(a.Args))
+			for i, x := range a.Args {
+				args[i] = x.(ast.Constant)
+			}
+			got2[normKey(a.Predicate.Symbol, args)] = true
+		}
+		var missing2, extra2 []string
+		for k := range want2 {
+			if !got2[k] {
+				missing2 = append(missing2, k)
+			}
+		}
+		for k := range got2 {
+			if !want2[k] {
+				extra2 = append(extra2, k)
+			}
+		}
+		sort.Strings(missing2)
+		sort.Strings(extra2)
+		if len(missing2) > 0 || len(extra2) > 0 {
+			run.Failf(f, "after adding facts and evaluating the same program again on the same store, the aggregation result differs from the fold of each rule's own body solutions over the new fixpoint.\nmissing: %v\nextra: %v\nprogram:\n%spre-loaded for the first evaluation: %s\nadded before the second: %s",
+				missing2, extra2, text, atomsText(early.Extra), atomsText(lateAtoms))
+		}
+		v.labels = append(v.labels, "re-evaluated")
+		if ref2.MaxGroup > ref.MaxGroup {
+			v.labels = append(v.labels, "re-evaluated-group-grew")
+		}
+	}
 	// non-trivial: some aggregated fact stems from a group with >= 2 solutions: approximated by
 	// "an aggregated predicate has a fact whose count/sum differs from a single row", measured as:
 	// the body relations feeding aggregation hold >= 2 facts and at least one s-fact exists.
@@ -148,6 +225,26 @@ func check(run *stats.Run, f stats.Failer, c Case) verdict {
 		v.labels = append(v.labels, "group>=2")
 	}
 	return v
+}
+
+// lateFacts returns the facts withheld until the second evaluation; none if the program has a negated atom
+// (a negated atom makes the internal relation of an aggregated body non-monotone: rows of the first run that are
+// no longer solutions would stay in the store, which the property does not speak about).
+func lateFacts(c Case) []prog.Atom {
+	for _, r := range c.Gen.Prog.Rules {
+		for _, l := range r.Body {
+			if l.K == prog.LNeg {
+				return nil
+			}
+		}
+	}
+	var late []prog.Atom
+	for _, i := range c.Late {
+		if i >= 0 && i < len(c.Gen.Extra) {
+			late = append(late, c.Gen.Extra[i])
+		}
+	}
+	return late
 }
 
 func usesCollect(p prog.Program) bool {
@@ -173,13 +270,20 @@ func atomsText(as []prog.Atom) string {
 
 func (c Case) hash() uint64 {
 	b, _ := json.Marshal(c.Gen)
-	return stats.Hash(string(b), c.Store)
+	return stats.Hash(string(b), c.Store, fmt.Sprint(c.Late))
 }
 
 func genCase(t *rapid.T) Case {
 	g := prog.GenAgg().Draw(t, "prog")
 	c := Case{Gen: g, Store: rapid.SampledFrom(prog.StoreKinds).Draw(t, "store")}
 	c.Text = g.Prog.Source()
+	if len(g.Extra) > 0 && rapid.IntRange(0, 3).Draw(t, "twoPhase") == 0 {
+		for i := range g.Extra {
+			if rapid.Bool().Draw(t, "late") {
+				c.Late = append(c.Late, i)
+			}
+		}
+	}
 	return c
 }
 
@@ -203,7 +307,7 @@ func minimize(t *testing.T, run *stats.Run) {
 		return
 	}
 	c, ok := run.Last().(Case)
-	if !ok {
+	if !ok || len(c.Late) > 0 { // Late indexes Gen.Extra: rapid's own shrinking has to do for two-phase cases
 		return
 	}
 	fails := func(g prog.Generated) bool {
